@@ -238,6 +238,8 @@ def main_run(pid, tier, seed, jobs, only=None, replay=None):
     assert len(set(ids)) == len(ids), "duplicate case ids: " + str([i for i in ids if ids.count(i) > 1][:3])
 
     work = [(pid, cid, payload, horizon) for cid, payload in caselist]
+    if hasattr(mod, "cost"):            # longest cases first (shorter tail on the worker pool); results are re-sorted into declaration order below
+        work.sort(key=lambda w: -mod.cost(w[2]))
     results = []
     if jobs <= 1 or len(work) <= 1 or getattr(mod, "INPROCESS", False):
         import contextlib
